@@ -68,6 +68,9 @@ func tagSafeSpec(t typeSpec) bool {
 func c18TypesOn(c *ctx, t typeSpec, useNew bool, ops []c18TOp, built bool) {
 	var steps, descs, gops []string
 	var key, detail string
+	if built {
+		t.noFrom = false
+	}
 	for _, o := range ops {
 		descs = append(descs, o.String())
 		gops = append(gops, o.gallina())
@@ -90,6 +93,12 @@ func c18TypesOn(c *ctx, t typeSpec, useNew bool, ops []c18TOp, built bool) {
 		}
 		obs := func() string { return oL([]string{oType(src.GetType()), oType(other.GetType())}) }
 		steps = append(steps, obs())
+		if a, b := oType(src.GetType()), oType(other.GetType()); a != b && key == "" {
+			key, detail = "copy-of-another-type", fmt.Sprintf("source %s, the other %s", a, b)
+		}
+		if tc := ty.Copy(); !tc.Equal(ty) && key == "" {
+			key, detail = "copy-of-another-type", "Type.Copy is not Equal to its source"
+		}
 		for i, o := range ops {
 			target, untouched := other, src
 			if o.who {
